@@ -6,6 +6,7 @@ from lib.common import *
 S_IFMT = 0o170000
 KIND_OF_MODE = {0o040000: "dir", 0o100000: "file", 0o120000: "lnk", 0o010000: "fifo", 0o020000: "chr", 0o060000: "blk", 0o140000: "sock", 0: "file"}
 LOOKUP_OPS = ("resolve", "open", "readlink")
+FDRET_OPS = ("create_file", "mkdir_all")      # mutating operations that hand a descriptor back (C03: it must be inside)
 
 
 def split_body(b):
@@ -13,13 +14,13 @@ def split_body(b):
 
 
 def blank(ev, case):
-    return dict(ev=ev, case=case, who=0, nr="", d1=0, n1="", d2=0, n2="", flag="", ret=0, rid=0, kind="", body=[], dents=[], inodes=[], op="", inj=False)
+    return dict(ev=ev, case=case, who=0, nr="", d1=0, n1="", d2=0, n2="", flag="", ret=0, rid=0, kind="", body=[], dents=[], inodes=[], op="", inj=False, expectall=False)
 
 
 def snap_event(ev, case, snap):
     e = blank(ev, case)
     e["dents"] = [[d["p"], d["n"], d["c"]] for d in snap["dents"]]
-    e["inodes"] = [[i["id"], i["k"], split_body(i.get("b")) if i["k"] == "lnk" else []] for i in snap["inodes"]]
+    e["inodes"] = [[i["id"], i["k"], split_body(i.get("b")) if i["k"] == "lnk" else [], i.get("mode", 0)] for i in snap["inodes"]]
     return e
 
 
@@ -56,7 +57,8 @@ def project_fs(res, case_spec):
                 op = calls[j]["op"] if j < len(calls) else ""
                 en["op"] = op
                 r = results[j] if j < len(results) and results[j] else {}
-                en["flag"] = "lookup" if op in LOOKUP_OPS else "other"
+                en["flag"] = "lookup" if op in LOOKUP_OPS else ("fdret" if op in FDRET_OPS else "other")
+                en["body"] = (calls[j].get("path") or "").split("/") if j < len(calls) else []
                 if r.get("ok"):
                     en["ret"] = 0
                     if op == "readlink":
@@ -128,7 +130,13 @@ def project_fs(res, case_spec):
         if s["ret"] < 0 and s["nr"] in ("creat",):
             continue
         out.append(s)
-    out.append(snap_event("snap", cid, res["final"]))
+    sn = snap_event("snap", cid, res["final"])
+    if case_spec.get("post"):
+        sn["flag"] = "post"
+        sn["expectall"] = bool(case_spec.get("expectall"))
+        mm = int(case_spec.get("mkmode", 0o755))
+        sn["rid"] = (mm & ~0o022) if mm >= 0 else -1      # expected mode of created directories (-1: callers differ)
+    out.append(sn)
     return out
 
 
